@@ -50,9 +50,7 @@ theorem deliverOne_segment {w : World} {it : QItem} {w' : World} {seg : List QIt
       (handlerPhase it info loc hs).run.run w1 = (.ok owned, wh) ∧
       seg.reverse = wh.queue := by
   obtain ⟨w'', hd, rfl, rfl⟩ := h
-  rw [deliverOne_phases, run_bind, run_get] at hd
-  simp only at hd
-  rw [run_bind] at hd
+  rw [deliverOne_run] at hd
   have hq1 := (lookupPhase_qu [] it { w with queue := [] }).run { w with queue := [] } rfl
   generalize hl : (lookupPhase it { w with queue := [] }).run.run { w with queue := [] } = r at hd hq1
   obtain ⟨(e|⟨info, hs, loc⟩), w1⟩ := r
@@ -72,17 +70,14 @@ theorem deliverOne_segment {w : World} {it : QItem} {w' : World} {seg : List QIt
     | some hs =>
       right
       simp only at hd
-      rw [run_bind] at hd
       generalize hh : (handlerPhase it info loc hs).run.run w1 = r at hd
       obtain ⟨(e|owned), wh⟩ := r
       · cases hd
       · refine ⟨info, hs, loc, w1, owned, wh, rfl, hq1, hh, ?_⟩
         simp only at hd
-        rw [run_bind, run_modify] at hd
-        simp only at hd
         cases owned with
         | true =>
-          simp only [if_true, run_pure] at hd
+          simp only [if_true] at hd
           cases hd
           simp
         | false =>
